@@ -79,7 +79,11 @@ func RunGrid(rep *explore.Report, cfgs []*Config, mk func() Visitor, o GridOpts)
 			rep.Add("configurations_skipped", 1)
 			return
 		}
-		r := &Run{Cfg: c, Rep: rep, Vis: mk(), Property: o.Property, Mode: mode, Workers: workers,
+		m := mode
+		if c.Scene != nil {
+			m = "replay" // what a scene is about lives outside the game state: never fork by cloning
+		}
+		r := &Run{Cfg: c, Rep: rep, Vis: mk(), Property: o.Property, Mode: m, Workers: workers,
 			MaxState: o.MaxState, Deadline: deadline, CrossN: o.CrossN, Edges: o.Edges}
 		t0 := time.Now()
 		r.Explore()
@@ -126,6 +130,45 @@ func RunGrid(rep *explore.Report, cfgs []*Config, mk func() Visitor, o GridOpts)
 	if len(cfgs) > 0 {
 		rep.Sample(map[string]any{"configuration": cfgs[0], "note": "largest configuration of the grid"})
 		rep.Sample(map[string]any{"configuration": cfgs[len(cfgs)/2]})
+	}
+}
+
+// RunScenes explores the scene grid (see scene.go) before anything else, one configuration after
+// the other on one worker: nothing else touches the process while a scene is explored, so whatever
+// the library shares between objects is seen exactly as the scene arranges it. It reports whether a
+// violation was recorded (the caller then skips the rest: with process-wide state corrupted the
+// parallel exploration would only add unreproducible noise).
+func RunScenes(rep *explore.Report, tier string, mk func() Visitor, o GridOpts) bool {
+	before := rep.ViolationCount()
+	cfgs := SceneGrid(tier)
+	for _, c := range cfgs {
+		r := &Run{Cfg: c, Rep: rep, Vis: mk(), Property: o.Property, Mode: "replay", Workers: 1,
+			MaxState: 300000, Edges: o.Edges}
+		t0 := time.Now()
+		r.Explore()
+		if os.Getenv("VERIF_VERBOSE") != "" {
+			fmt.Fprintf(os.Stderr, "%8.2fs states=%d scene %s\n", time.Since(t0).Seconds(), r.States(), c.Short())
+		}
+		if o.After != nil {
+			o.After(r)
+		}
+		rep.Add("scene_configurations", 1)
+		rep.Add("scene_states", r.States())
+	}
+	rep.Set("scenes", "every history of "+strconv.Itoa(len(cfgs))+" (hand, scene) pairs: the hand under test played beside a second live game of the same process (replayed after every accepted operation), on a game object that was used for another hand before (ApplyOptions + Start), and on a used object that received the hand through LoadState; no state cloning")
+	sceneCoverage(rep)
+	if rep.ViolationCount() > before {
+		rep.Cap("a scene configuration violated the property: the rest of the check was skipped")
+		return true
+	}
+	return false
+}
+
+func sceneCoverage(rep *explore.Report) {
+	rep.Set("scene_other_hand_operations_accepted", otherAccepted.Load())
+	rep.Set("scene_other_hand_operations_refused", otherRefused.Load())
+	if m := otherFirstRefusal.Load(); m != nil {
+		rep.Set("scene_other_hand_first_refusal", *m)
 	}
 }
 
